@@ -93,17 +93,24 @@ def parseBoolean (l : List Char) : Option Val :=
 
 abbrev NsMap := List (String × String)
 
-/-- `get_extended_qname(value.strip(), namespaces)` -/
+/-- `get_extended_qname(value.strip(), namespaces)` (utils/qnames.py:124-154), every branch:
+    an empty map returns the name as it is, as does an extended name `{…}…`, an unprefixed name
+    without a (non-empty) default namespace, and a name whose prefix is not in the map; a prefix
+    mapped to the empty URI gives the local part -/
 def parseQName (ns : NsMap) (l : List Char) : Option Val :=
   let r := strip l
-  let pre := r.takeWhile (· != ':')
-  match r.dropWhile (· != ':') with
-  | [] => match ns.lookup "" with
-    | some u => if u.isEmpty then some (.str (String.ofList r)) else some (.str ("{" ++ u ++ "}" ++ String.ofList r))
-    | none => some (.str (String.ofList r))
-  | _ :: loc => match ns.lookup (String.ofList pre) with
-    | some u => some (.str ("{" ++ u ++ "}" ++ String.ofList loc))
-    | none => none
+  if ns.isEmpty || r.isEmpty then some (.str (String.ofList r))
+  else if r.head? = some '{' then some (.str (String.ofList r))
+  else
+    let pre := r.takeWhile (· != ':')
+    match r.dropWhile (· != ':') with
+    | [] => match ns.lookup "" with
+      | some u => if u.isEmpty then some (.str (String.ofList r)) else some (.str ("{" ++ u ++ "}" ++ String.ofList r))
+      | none => some (.str (String.ofList r))
+    | _ :: loc => match ns.lookup (String.ofList pre) with
+      | some u => if u.isEmpty then some (.str (String.ofList loc))
+                  else some (.str ("{" ++ u ++ "}" ++ String.ofList loc))
+      | none => some (.str (String.ofList r))
 
 def valOf (ns : NsMap) (t : Ty) (lex : String) : Option Val :=
   match t with
@@ -131,23 +138,26 @@ structure Attr where
   idk : Nat := 0          -- 1: declared xs:ID, 2: declared xs:IDREF, 0: neither
   deriving Repr, Inhabited
 
+/-- `xmlns`: the namespace declarations written on the element itself (what
+    `XMLResource.get_xmlns(elem)` returns; `[]` for `None`) -/
 inductive Node where
   | mk (id decl : Nat) (name : String) (attrs : List Attr) (ety : Option Ty) (text : String)
-       (kids : List Node)
+       (xmlns : List (String × String)) (kids : List Node)
   deriving Repr, Inhabited
 
-def Node.id : Node → Nat | .mk i _ _ _ _ _ _ => i
-def Node.decl : Node → Nat | .mk _ d _ _ _ _ _ => d
-def Node.name : Node → String | .mk _ _ n _ _ _ _ => n
-def Node.attrs : Node → List Attr | .mk _ _ _ a _ _ _ => a
-def Node.ety : Node → Option Ty | .mk _ _ _ _ t _ _ => t
-def Node.text : Node → String | .mk _ _ _ _ _ t _ => t
-def Node.kids : Node → List Node | .mk _ _ _ _ _ _ k => k
+def Node.id : Node → Nat | .mk i _ _ _ _ _ _ _ => i
+def Node.decl : Node → Nat | .mk _ d _ _ _ _ _ _ => d
+def Node.name : Node → String | .mk _ _ n _ _ _ _ _ => n
+def Node.attrs : Node → List Attr | .mk _ _ _ a _ _ _ _ => a
+def Node.ety : Node → Option Ty | .mk _ _ _ _ t _ _ _ => t
+def Node.text : Node → String | .mk _ _ _ _ _ t _ _ => t
+def Node.xmlns : Node → List (String × String) | .mk _ _ _ _ _ _ x _ => x
+def Node.kids : Node → List Node | .mk _ _ _ _ _ _ _ k => k
 
 mutual
 /-- descendant-or-self, document order -/
 def Node.dos : Node → List Node
-  | .mk i d n a t x kids => .mk i d n a t x kids :: dosList kids
+  | .mk i d n a t x ns kids => .mk i d n a t x ns kids :: dosList kids
 def dosList : List Node → List Node
   | [] => []
   | k :: ks => k.dos ++ dosList ks
@@ -190,21 +200,24 @@ inductive FRes (α : Type) where
   | multi                 -- "field selects multiple values"
   deriving DecidableEq, Repr, Inhabited
 
-/-- (declared type, lexical value) of every node an xs:field alternative reaches -/
-def Path.items (p : Path) (n : Node) : List (Option Ty × String) :=
+/-- (owner element, declared type, lexical value) of every node an xs:field alternative reaches;
+    the owner is the element whose in-scope namespaces govern the value: the element itself, or
+    the element carrying the attribute -/
+def Path.items (p : Path) (n : Node) : List (Nat × Option Ty × String) :=
   match p.attr with
-  | none => (p.elems n).map fun e => (e.ety, e.text)
-  | some a => (p.elems n).flatMap fun e => (e.attrs.filter (·.name == a)).map fun x => (x.ty, x.lex)
+  | none => (p.elems n).map fun e => (e.id, e.ety, e.text)
+  | some a => (p.elems n).flatMap fun e =>
+      (e.attrs.filter (·.name == a)).map fun x => (e.id, x.ty, x.lex)
 
-/-- field evaluation, generic in how a (declared type, lexical form) pair becomes a value:
-    `conv = untagged` is what the code does, `conv = tagged` is the XSD value space.
+/-- field evaluation, generic in how an (owner, declared type, lexical form) triple becomes a value:
+    `conv = codeConv …` is what the code does, `conv = specConv …` is the XSD value space.
     `none` = a lexical form outside the modelled lexical spaces (the driver reports it, it is
     never turned into a verdict) -/
-def fieldResG {α : Type} (conv : Option Ty → String → Option α) (f : List Path) (n : Node) :
+def fieldResG {α : Type} (conv : Nat → Option Ty → String → Option α) (f : List Path) (n : Node) :
     Option (FRes α) :=
   match f.flatMap (·.items n) with
   | [] => some .absent
-  | [(t, lex)] => (conv t lex).map .val
+  | [(o, t, lex)] => (conv o t lex).map .val
   | _ => some .multi
 
 /-- the value as the code keys it (untyped nodes give their string value) -/
@@ -219,7 +232,106 @@ def tagged (ns : NsMap) : Option Ty → String → Option SVal
   | none, lex => some (.string, .str lex)
   | some t, lex => (valOf ns t lex).map fun v => (t.prim, v)
 
-def fieldRes (ns : NsMap) (f : List Path) (n : Node) : Option (FRes Val) := fieldResG (untagged ns) f n
+/-! ## 2b. Namespace declarations in scope
+
+  The map a QName field is resolved with is `context.namespaces`, the dictionary of the converter's
+  `NamespaceMapper`, *at the moment `collect_key_fields` runs*.  In 'stacked' xmlns processing (the
+  mode of an `XMLResource` source) that dictionary is mutated along the walk by
+  `set_xmlns_context(obj, level)` (namespaces.py:193-236):
+
+    groups.py:1008      for every child, before it is decoded      (level = parent level + 1)
+    elements.py:645     for the root                                (level 0)
+    elements.py:833     after the content of an element, "purge sub-contexts"  (its own level)
+    elements.py:855     collect_key_fields(...)                     ← reads the map here
+
+  `NsSt` / `setCtx` / `nsWalk` port exactly that (the reverse map, which plays no role in the
+  resolution of field values, is left to C17).  With an ElementTree source the mode is 'none': no
+  element has declarations (`xmlns = []` everywhere) and the map stays the `namespaces` argument. -/
+
+/-- `NamespaceMapperContext`: (obj, level, xmlns, namespaces, reverse) — the saved map only -/
+structure NsCtx where
+  obj : Nat
+  level : Nat
+  saved : NsMap
+  deriving Repr, Inhabited
+
+structure NsSt where
+  cur : NsMap
+  stack : List NsCtx      -- `_xmlns_contexts`, innermost first
+  deriving Repr, Inhabited
+
+/-- `self.namespaces.update(xmlns)` on an association list read with `List.lookup` -/
+def nsUpdate (m : NsMap) (xmlns : NsMap) : NsMap := xmlns.reverse ++ m
+
+/-- the loop 204-213: pops the contexts of siblings / descendants; result: remaining stack, the map
+    saved in the LAST popped context, whether a context for `(obj, level)` already exists -/
+def popCtx (obj level : Nat) : List NsCtx → Option NsMap → List NsCtx × Option NsMap × Bool
+  | [], r => ([], r, false)
+  | c :: cs, r =>
+    if level > c.level then (c :: cs, r, false)
+    else if level = c.level ∧ c.obj = obj then (c :: cs, r, true)
+    else popCtx obj level cs (some c.saved)
+
+/-- `set_xmlns_context(obj, level)`, stacked mode; `xmlns` = `_xmlns_getter(obj)` -/
+def setCtx (obj level : Nat) (xmlns : NsMap) (st : NsSt) : NsSt :=
+  match popCtx obj level st.stack none with
+  | (stack, restore, found) =>
+    let cur := restore.getD st.cur
+    if found || xmlns.isEmpty then ⟨cur, stack⟩
+    else ⟨nsUpdate cur xmlns, ⟨obj, level, cur⟩ :: stack⟩
+
+mutual
+/-- the walk of `XsdElement.raw_decode` over an element whose context was set by its caller: the
+    children one by one (each after `set_xmlns_context(child, level+1)`), then the purge, then
+    `collect_key_fields` reads the map.  Output: (element, map read at its collect) in the order
+    of the collects, and the state left behind. -/
+def Node.nsWalk (level : Nat) : Node → NsSt → List (Nat × NsMap) × NsSt
+  | .mk i _ _ _ _ _ xm kids, st =>
+    match nsWalkList (level + 1) kids st with
+    | (out, st1) =>
+      let st2 := setCtx i level xm st1              -- elements.py:833
+      (out ++ [(i, st2.cur)], st2)                  -- elements.py:855
+def nsWalkList (level : Nat) : List Node → NsSt → List (Nat × NsMap) × NsSt
+  | [], st => ([], st)
+  | k :: ks, st =>
+    match k.nsWalk level (setCtx k.id level k.xmlns st) with      -- groups.py:1008
+    | (o1, st1) =>
+      match nsWalkList level ks st1 with
+      | (o2, st2) => (o1 ++ o2, st2)
+end
+
+/-- whole document from the initial map `ns0` (`NamespaceMapper(namespaces, source=…).namespaces`) -/
+def nsCollects (ns0 : NsMap) (root : Node) : List (Nat × NsMap) :=
+  (root.nsWalk 0 (setCtx root.id 0 root.xmlns ⟨ns0, []⟩)).1
+
+mutual
+/-- S: the namespace declarations in scope of every element: its own declarations over those in
+    scope of its parent (Namespaces in XML §6.1) -/
+def Node.scopes (m : NsMap) : Node → List (Nat × NsMap)
+  | .mk i _ _ _ _ _ xm kids => scopesList (nsUpdate m xm) kids ++ [(i, nsUpdate m xm)]
+def scopesList (m : NsMap) : List Node → List (Nat × NsMap)
+  | [] => []
+  | k :: ks => k.scopes m ++ scopesList m ks
+end
+
+/-- the map the code resolves the fields of selected node `i` with -/
+def nsAt (ns0 : NsMap) (root : Node) (i : Nat) : NsMap := ((nsCollects ns0 root).lookup i).getD ns0
+/-- the declarations in scope of element `i` -/
+def scopeAt (ns0 : NsMap) (root : Node) (i : Nat) : NsMap := ((root.scopes ns0).lookup i).getD ns0
+
+/-- what the code does with one field item of selected node `n`: resolved with the map held at the
+    collect of `n`.  `fscope` = the repaired tree (notes/fixes/C08-qname-field-node-scope.patch):
+    the in-scope declarations of the node the field selects are laid over that map. -/
+def codeConv (fscope : Bool) (ns0 : NsMap) (root : Node) (n : Nat) : Nat → Option Ty → String → Option Val :=
+  fun o t lex => untagged (if fscope then scopeAt ns0 root o else nsAt ns0 root n) t lex
+
+/-- S: a field value is a value of its declared type, a QName being resolved with the
+    declarations in scope of the element that carries it -/
+def specConv (ns0 : NsMap) (root : Node) : Nat → Option Ty → String → Option SVal :=
+  fun o t lex => tagged (scopeAt ns0 root o) t lex
+
+def fieldRes (fscope : Bool) (ns0 : NsMap) (root : Node) (f : List Path) (n : Node) : Option (FRes Val) :=
+  fieldResG (codeConv fscope ns0 root n.id) f n
 
 /-! ## 3. Counters (identities.py:385-418) and the per-document machine (elements.py) -/
 
@@ -386,7 +498,8 @@ structure Con where
 structure Schema where
   cons : List Con
   declCons : List (Nat × List Nat)     -- declaration ↦ ids of its identity constraints, in order
-  ns : NsMap
+  ns : NsMap                           -- the validator's initial namespace map
+  fscope : Bool := false               -- the tree under check resolves QName fields at the field node
   deriving Repr, Inhabited
 
 def Schema.consOf (sch : Schema) (decl : Nat) : List Nat := (sch.declCons.lookup decl).getD []
@@ -397,7 +510,7 @@ def Schema.con? (sch : Schema) (c : Nat) : Option Con := sch.cons.find? (·.id =
 mutual
 /-- the order in which `XsdElement.raw_decode` works on a document: enter, content, collect, leave -/
 def Node.events (sch : Schema) : Node → List Ev
-  | .mk i d _ _ _ _ kids =>
+  | .mk i d _ _ _ _ _ kids =>
     .enter i (sch.consOf d) :: (eventsList sch kids ++
       [.collect i (sch.selectedBy d), .leave i (sch.consOf d)])
 def eventsList (sch : Schema) : List Node → List Ev
@@ -408,8 +521,8 @@ end
 def findNode (root : Node) (i : Nat) : Option Node := root.dos.find? (·.id == i)
 
 /-- field results of constraint `c` on node `n`; `none` if a lexical form is not modelled -/
-def fieldsOf (sch : Schema) (k : Con) (n : Node) : Option (List (FRes Val)) :=
-  k.fields.mapM (fun f => fieldRes sch.ns f n)
+def fieldsOf (sch : Schema) (root : Node) (k : Con) (n : Node) : Option (List (FRes Val)) :=
+  k.fields.mapM (fun f => fieldRes sch.fscope sch.ns root f n)
 
 def envOf (sch : Schema) (root : Node) : Env where
   kind c := match sch.con? c with | some k => k.kind | none => .unique
@@ -418,12 +531,12 @@ def envOf (sch : Schema) (root : Node) : Env where
     | some k, some sn => (selectedIds k.sel sn).contains n
     | _, _ => false
   fields c n := match sch.con? c, findNode root n with
-    | some k, some nn => (fieldsOf sch k nn).getD []
+    | some k, some nn => (fieldsOf sch root k nn).getD []
     | _, _ => []
 
 /-- every field of every constraint evaluates inside the modelled lexical spaces -/
 def lexOk (sch : Schema) (root : Node) : Bool :=
-  sch.cons.all fun k => root.dos.all fun n => (fieldsOf sch k n).isSome
+  sch.cons.all fun k => root.dos.all fun n => (fieldsOf sch root k n).isSome
 
 def runDoc (sch : Schema) (root : Node) : St := run (envOf sch root) (root.events sch)
 
@@ -490,16 +603,16 @@ def targets (k : Con) (s : Node) : List Node :=
   s.dos.filter fun n => (selectedIds k.sel s).contains n.id
 
 /-- typed (value-space) rows of constraint `k` in scope `s` -/
-def sRows (ns : NsMap) (k : Con) (s : Node) : List (List (FRes SVal)) :=
-  (targets k s).map fun n => (k.fields.mapM (fun f => fieldResG (tagged ns) f n)).getD []
+def sRows (sch : Schema) (root : Node) (k : Con) (s : Node) : List (List (FRes SVal)) :=
+  (targets k s).map fun n => (k.fields.mapM (fun f => fieldResG (specConv sch.ns root) f n)).getD []
 
 /-- the rows as the code keys them -/
-def rowsOf (sch : Schema) (k : Con) (s : Node) : List (List (FRes Val)) :=
-  (targets k s).map fun n => (fieldsOf sch k n).getD []
+def rowsOf (sch : Schema) (root : Node) (k : Con) (s : Node) : List (List (FRes Val)) :=
+  (targets k s).map fun n => (fieldsOf sch root k n).getD []
 
 /-- the qualified tuples of constraint `k` in scope `s` -/
-def qualified (ns : NsMap) (k : Con) (s : Node) : List (List SVal) :=
-  (sRows ns k s).filterMap complete?
+def qualified (sch : Schema) (root : Node) (k : Con) (s : Node) : List (List SVal) :=
+  (sRows sch root k s).filterMap complete?
 
 /-- scope instances of constraint `c` inside (or at) `s` -/
 def scopesOf (sch : Schema) (c : Nat) (s : Node) : List Node :=
@@ -507,19 +620,19 @@ def scopesOf (sch : Schema) (c : Nat) (s : Node) : List Node :=
 
 /-- the table of the referenced constraint visible from scope `s`: the tables of all its scope
     instances within `s` (tables propagate upwards; see `conflict` for the tuples the spec drops) -/
-def referTable (sch : Schema) (r : Con) (s : Node) : List (List SVal) :=
-  (scopesOf sch r.id s).flatMap (qualified sch.ns r)
+def referTable (sch : Schema) (root : Node) (r : Con) (s : Node) : List (List SVal) :=
+  (scopesOf sch r.id s).flatMap (qualified sch root r)
 
 /-- O: clauses of the property violated in scope `s` by constraint `k` -/
-def scopeClauses (sch : Schema) (k : Con) (s : Node) : List Clause :=
-  rowsClauses k.kind (sRows sch.ns k s) ((k.refer.bind sch.con?).map fun r => referTable sch r s)
+def scopeClauses (sch : Schema) (root : Node) (k : Con) (s : Node) : List Clause :=
+  rowsClauses k.kind (sRows sch root k s) ((k.refer.bind sch.con?).map fun r => referTable sch root r s)
 
 /-- O on a whole document: the violated (constraint, clause) pairs -/
 def specClauses (sch : Schema) (root : Node) : List (Nat × Clause) :=
   root.dos.flatMap fun s =>
     (sch.consOf s.decl).flatMap fun c => match sch.con? c with
       | none => []
-      | some k => (scopeClauses sch k s).map fun cl => (c, cl)
+      | some k => (scopeClauses sch root k s).map fun cl => (c, cl)
 
 /-! ### guards: the regions in which the current algorithm is known to deviate -/
 
@@ -543,8 +656,8 @@ def conflict (sch : Schema) (root : Node) : Bool :=
     (sch.consOf s.decl).any fun c => match sch.con? c with
       | some k => match k.kind, k.refer.bind sch.con? with
         | .keyref, some r =>
-          let tabs := (scopesOf sch r.id s).map (qualified sch.ns r)
-          (qualified sch.ns k s).any fun t => (tabs.filter (·.contains t)).length ≥ 2
+          let tabs := (scopesOf sch r.id s).map (qualified sch root r)
+          (qualified sch root k s).any fun t => (tabs.filter (·.contains t)).length ≥ 2
         | _, _ => false
       | none => false
 
@@ -554,11 +667,32 @@ def strQName (sch : Schema) (root : Node) : List Nat :=
     (sch.consOf s.decl).filter fun c => match sch.con? c with
       | some k => match k.kind, k.refer.bind sch.con? with
         | .keyref, some r =>
-          let tab := referTable sch r s
-          (qualified sch.ns k s).any fun t =>
+          let tab := referTable sch root r s
+          (qualified sch root k s).any fun t =>
             !tab.contains t && (tab.map (·.map (·.2))).contains (t.map (·.2))
         | _, _ => false
       | none => false).eraseDups
+
+/-- a constraint with a selected node one of whose fields gets a different value when it is resolved
+    with the declarations in scope of the node the field selects instead of the map held at the
+    collect of the selected node (a child-element field that carries its own xmlns declarations):
+    finding C08-F8 on a tree with `fscope = false` -/
+def fieldNs (sch : Schema) (root : Node) : List Nat :=
+  (root.dos.flatMap fun s =>
+    (sch.consOf s.decl).filter fun c => match sch.con? c with
+      | some k => (targets k s).any fun n => k.fields.any fun f =>
+          fieldResG (specConv sch.ns root) f n !=
+            fieldResG (fun _ t lex => tagged (nsAt sch.ns root n.id) t lex) f n
+      | none => false).eraseDups
+
+mutual
+/-- sibling elements are distinct objects (`context.obj is obj` of the stack discipline) -/
+def Node.sibOk : Node → Bool
+  | .mk _ _ _ _ _ _ _ kids => decide ((kids.map Node.id).Nodup) && sibOkList kids
+def sibOkList : List Node → Bool
+  | [] => true
+  | k :: ks => k.sibOk && sibOkList ks
+end
 
 /-! ## 5. ID / IDREF (simple_types.py:763-783, schemas.py:1393-1399) -/
 
